@@ -215,6 +215,156 @@ def b_calc(ctx):
     ctx.sample({'curves': 3, 'loads': 4})
 
 
+
+# ---------------------------------------------------------------------------------------------
+# P: frame condition of _broadcast_frame_to_frame (operands get their own index objects and level names back)
+# ---------------------------------------------------------------------------------------------
+BC = BR + 'Broadcaster'
+
+
+class GIndex:
+    """an index object of an operand: only its level names are concrete, every pandas operation on it yields an arbitrary object"""
+    def __init__(self, world, names, tag):
+        self.world, self.tag = world, tag
+        self.names = list(names)
+        self.writes = 0
+
+    def pv_getattr(self, attr):
+        from pv.interp import PList
+        from pv.ghost import Havoc
+        if attr == 'names':
+            return PList(list(self.names))
+        if attr == 'name':
+            return self.names[0]
+        if attr == 'nlevels':
+            return len(self.names)
+        self.world.may_fail(f'{self.tag}.{attr}')
+        return Havoc(self.world, f'{self.tag}.{attr}')
+
+    def pv_setattr(self, attr, value):
+        from pv.interp import PList, Unsupported
+        if attr != 'names':
+            raise Unsupported(f'assignment to index.{attr}')
+        self.world.may_fail(f'{self.tag}.names = ...')
+        items = value.items if isinstance(value, PList) else list(value)
+        if not all(isinstance(x, str) or x is None for x in items):
+            raise Unsupported('index names are not concrete')
+        self.names = list(items)
+        self.writes += 1
+
+
+class GOperand:
+    """a Series / DataFrame operand: its `index` slot is tracked, everything else is arbitrary"""
+    def __init__(self, world, kind, index, tag):
+        self.world, self.kind, self.tag = world, kind, tag
+        self.index = index
+        self.index_writes = []
+
+    def pv_getattr(self, attr):
+        from pv.ghost import Havoc
+        if attr == 'index':
+            return self.index
+        self.world.may_fail(f'{self.tag}.{attr}')
+        return Havoc(self.world, f'{self.tag}.{attr}')
+
+    def pv_setattr(self, attr, value):
+        from pv.interp import Unsupported
+        if attr != 'index':
+            raise Unsupported(f'assignment to operand.{attr}')
+        self.world.may_fail(f'{self.tag}.index = ...')
+        self.index = value
+        self.index_writes.append(value)
+
+    def pv_isinstance(self, cls):
+        label = getattr(cls, 'label', '')
+        if label.endswith('.Series'):
+            return self.kind == 'series'
+        if label.endswith('.DataFrame'):
+            return self.kind == 'frame'
+        from pv.interp import Unsupported
+        raise Unsupported(f'isinstance of an operand against {cls!r}')
+
+    def pv_truth(self):
+        return True
+
+
+class UuidNS:
+    """uuid.uuid4().hex: a fresh string different from every level name"""
+    def __init__(self):
+        self.k = 0
+
+    def get(self, attr):
+        if attr != 'uuid4':
+            raise KeyError(attr)
+
+        def uuid4():
+            self.k += 1
+            tok = f'<uuid-{self.k}>'
+
+            class U:
+                def pv_getattr(self_, a):
+                    return tok
+            return U()
+        return uuid4
+
+    def pv_getattr(self, attr):
+        return self.get(attr)
+
+
+@obligation('C13', 'broadcast.frame', functions=[BC + '._broadcast_frame_to_frame', BR + '_IndexLevelCache.__init__', BR + '_IndexLevelCache.restore_original_indeces',
+                                                  BR + '_IndexLevelCache.restore_real_index', BR + '_IndexLevelCache._make_new_index',
+                                                  BR + '_replace_none_index_names_with_unique_string', BR + '_replace_unique_string_with_none_name', BR + '_broadcast_to'])
+def broadcast_frame(o):
+    """frame condition of Broadcaster._broadcast_frame_to_frame, for every listed layout of level names and operand kinds and for ARBITRARY data (every pandas operation
+    returns an arbitrary object or raises): on every returning path both operands hold their own original index object again, that index object carries its original level
+    names (unnamed levels are None again, no temporary uuid name survives), and the only attribute of the operands ever assigned is `index`.  Raising paths are counted,
+    not constrained (an exception between re-coding and restore leaves the temporary index on the operands: outside the statement, see not_decided)."""
+    from pv.ghost import World, HavocNS, Havoc
+    from pv.interp import PyRaise, Obj, PList
+    layouts = [(('a',), ('a',)), (('a',), ('b',)), ((None,), ('a',)), (('a', 'b'), ('a',)), (('a', 'b'), ('b', 'c')), (('a', None), ('a', 'c')), (('a', 'b'), ('c', None)),
+               (('a', 'b', 'c'), ('b', 'd'))]
+    rows = []
+    for on, pn in layouts:
+        for okind, pkind in (('series', 'series'), ('frame', 'series'), ('frame', 'frame')):
+            for drop in ([], [pn[-1]] if pn[-1] is not None and pn[-1] not in on else []):
+                if drop == [] and rows and rows[-1][:4] == (on, pn, okind, pkind):
+                    continue
+                rows.append((on, pn, okind, pkind, tuple(drop)))
+    total_ret = total_raise = 0
+    bad = []
+    for on, pn, okind, pkind, drop in rows:
+        def thunk():
+            world = World(o.I)
+            o.I.libs.update({'numpy': HavocNS(world, 'np'), 'pandas': HavocNS(world, 'pd'), 'uuid': UuidNS()})
+            oi, pi = GIndex(world, on, 'obj.index'), GIndex(world, pn, 'parameter.index')
+            obj, prm = GOperand(world, okind, oi, 'obj'), GOperand(world, pkind, pi, 'parameter')
+            b = Obj(o.cls(BC))
+            b.fields['_obj'] = obj
+            try:
+                o.I.call(o.method(b, '_broadcast_frame_to_frame'), [prm, PList(list(drop))])
+                outcome = 'return'
+            except PyRaise as e:
+                outcome = 'raise'
+            return outcome, (obj, oi), (prm, pi)
+        ps = [p for p in o.paths(thunk, max_paths=20000) if p.kind == 'return']
+        for p in ps:
+            outcome, (obj, oi), (prm, pi) = p.result
+            if outcome == 'raise':
+                total_raise += 1
+                continue
+            total_ret += 1
+            ok = (obj.index is oi and prm.index is pi and oi.names == list(on) and pi.names == list(pn))
+            if not ok:
+                bad.append((on, pn, okind, pkind, drop, [type(obj.index).__name__, oi.names, type(prm.index).__name__, pi.names]))
+    o.prove('every returning path: both operands hold their original index object with its original level names', z3.BoolVal(not bad), kind='frame')
+    o.prove('the exploration has returning paths for every layout and raising paths', z3.BoolVal(total_ret >= len(rows) and total_raise >= 10), kind='shape')
+    if bad:
+        o.note(f"first violating layout: {bad[0]}")
+    o.note(f"{len(rows)} layouts (level names x operand kinds x droplevel), {total_ret} returning and {total_raise} raising paths explored")
+    o.trusted("pandas / numpy as arbitrary objects (pv/ghost.py Havoc): sound for the frame condition, which only concerns the operands' index slot and the names of their own index objects")
+    o.trusted("the operands' original index objects are not aliased by a pandas result that is later renamed (an alignment that returns the operand itself would share its index object)")
+
+
 META = {
     'level': 'exploration',
     'explanation': "bounded stand-in (labelled): the alignment contract of Broadcaster.broadcast is evaluated on the real code over every enumerated combination of object kind, "
